@@ -204,7 +204,7 @@ fn big_sdp(rng: &mut Rng, k: usize) -> String {
 fn run_sdpanswer_seed(run: &mut Run, live: &LivePc, seed: u64, nt: bool) {
     let l = std::panic::AssertUnwindSafe(live);
     let mut r2 = Rng::new(seed);
-    exec(run, "sdpset", &format!("answer {seed}"), "PeerConnection::set_remote_description(answer)", nt, Some((256, 4 << 20, 4096)), move || {
+    exec(run, "sdpset", &format!("answer {seed}"), "PeerConnection::set_remote_description(answer)", nt, Some((256, 1 << 20, 4096)), move || {
         l.rt.block_on(async {
             let mode = r2.below(3) as u8;
             let pc = PeerConnection::new(cfg(mode));
@@ -274,9 +274,9 @@ thread_local! { static UP: std::cell::Cell<bool> = const { std::cell::Cell::new(
 fn run_sdpset(run: &mut Run, live: &LivePc, mode: u8, s: &str, nt: bool) {
     let t = s.to_string();
     let l = std::panic::AssertUnwindSafe(live);
-    // allocation oracle: 2·(256·len + 4 MiB) + 512 — a media section costs a transceiver, receiver, track ring …
+    // allocation oracle: 2·(256·len + 1 MiB) + 512 — a media section costs a transceiver, receiver, track ring …
     // (tens of KB), so the constant is large; what it excludes is growth that is super-linear in the description
-    exec(run, "sdpset", &format!("{mode} {}", hex(s.as_bytes())), "PeerConnection::set_remote_description", nt, Some((256, 4 << 20, s.len() as u64)), move || {
+    exec(run, "sdpset", &format!("{mode} {}", hex(s.as_bytes())), "PeerConnection::set_remote_description", nt, Some((256, 1 << 20, s.len() as u64)), move || {
         let r = set_remote(&l, mode, &t);
         if r == "timeout" { panic!("set_remote_description did not return within 5 s"); }
         "noncompared".into()
